@@ -5,12 +5,15 @@
 //   trace: {"e":"Reset","case":k}  {"e":"Op","c":..,"op":"new",...}  {"e":"Op","c":..,"op":..,args..,"res":..,observation..}
 //          {"e":"Abort","case":k,"status":s}   when the real code crashed / was stopped by a sanitizer / hung
 //
-// Cases run in forked children (batches; a batch whose child dies is re-run one case per child with
-// unbuffered output), so that a sanitizer abort in one history is recorded and the others still run.
+// Cases run in forked children, a batch per child; the child reports its progress through shared memory, so
+// that when a history kills it (sanitizer abort, signal, time-out) that history alone is re-run in its own
+// child with unbuffered output (its events up to the fatal operation, then an Abort event) and the batch resumes
+// behind it: every other history still runs.
 #include "common.hpp"
 #include <algorithm>
 #include <set>
 #include <stdexcept>
+#include <sys/mman.h>
 #include <sys/wait.h>
 #include <unistd.h>
 
@@ -385,16 +388,25 @@ static void runCase(const J& c, size_t caseNo) {
     else { fprintf(stderr, "unknown container %s\n", kind.c_str()); exit(2); }
 }
 
+static volatile size_t* g_progress = nullptr;   // shared with the children: number of cases completed so far
+
 // run cases [from, to) in a child; returns the child's wait status (0 = clean)
 static int runChild(const std::vector<std::string>& lines, size_t from, size_t to, bool unbuffered) {
     fflush(stdout); fflush(stderr);
     const pid_t pid = fork();
     if (pid < 0) { perror("fork"); exit(2); }
     if (pid == 0) {
-        alarm(unbuffered ? 20 : 120);
+        alarm(unbuffered ? 20 : 300);
         g_unbuffered = unbuffered;
-        for (size_t k = from; k < to; ++k) runCase(parseJson(lines[k]), k + 1);
-        if (!g_unbuffered) { size_t off = 0; while (off < g_out.size()) { ssize_t w = write(1, g_out.data() + off, g_out.size() - off); if (w <= 0) _exit(3); off += size_t(w); } }
+        for (size_t k = from; k < to; ++k) {
+            runCase(parseJson(lines[k]), k + 1);
+            if (!g_unbuffered) {       // a case's events are written only when the case is complete
+                size_t off = 0;
+                while (off < g_out.size()) { ssize_t w = write(1, g_out.data() + off, g_out.size() - off); if (w <= 0) _exit(3); off += size_t(w); }
+                g_out.clear();
+                *g_progress = k + 1;
+            }
+        }
         _exit(0);
     }
     int st = 0;
@@ -406,19 +418,23 @@ int main(int argc, char** argv) {
     if (argc < 2) { fprintf(stderr, "usage: %s cases.ndjson [batch]\n", argv[0]); return 2; }
     Platform platform;
     const std::vector<std::string> lines = readLines(argv[1]);
-    const size_t batch = argc > 2 ? size_t(atol(argv[2])) : 200;
-    size_t aborted = 0;
-    for (size_t from = 0; from < lines.size(); from += batch) {
-        const size_t to = std::min(lines.size(), from + batch);
-        if (runChild(lines, from, to, false) == 0) continue;
-        for (size_t k = from; k < to; ++k) {          // some history in this batch killed the child: isolate it
-            const int st = runChild(lines, k, k + 1, true);
-            if (st != 0) {
-                ++aborted;
-                printf("{\"e\":\"Abort\",\"case\":%zu,\"status\":%d}\n", k + 1, WIFSIGNALED(st) ? 1000 + WTERMSIG(st) : WEXITSTATUS(st));
-                fflush(stdout);
-            }
+    const size_t batch = argc > 2 ? size_t(atol(argv[2])) : 500;
+    g_progress = static_cast<volatile size_t*>(mmap(nullptr, sizeof(size_t), PROT_READ | PROT_WRITE, MAP_SHARED | MAP_ANONYMOUS, -1, 0));
+    if (g_progress == MAP_FAILED) { perror("mmap"); return 2; }
+    size_t aborted = 0, k = 0;
+    while (k < lines.size()) {
+        const size_t to = std::min(lines.size(), k + batch);
+        *g_progress = k;
+        if (runChild(lines, k, to, false) == 0) { k = to; continue; }
+        const size_t culprit = *g_progress;            // the first case the child did not complete
+        if (culprit >= to) { k = to; continue; }
+        const int st = runChild(lines, culprit, culprit + 1, true);
+        if (st != 0) {
+            ++aborted;
+            printf("{\"e\":\"Abort\",\"case\":%zu,\"status\":%d}\n", culprit + 1, WIFSIGNALED(st) ? 1000 + WTERMSIG(st) : WEXITSTATUS(st));
+            fflush(stdout);
         }
+        k = culprit + 1;
     }
     fprintf(stderr, "c20: %zu cases, %zu aborted\n", lines.size(), aborted);
     fflush(stdout); fflush(stderr);
